@@ -29,6 +29,7 @@ EXPECT_MISS = {
     "contacts-hash-not-recorded-at-registration": "harmless: one superfluous contact update, the CA's record stays in line",
     "no-wait-between-retries": "C08 does not speak of the wait between transmissions",
     "nonce-taken-before-lock": "behaviour identical",
+    "limiter-stops-admitting": "requests are delayed until the log is pruned (at most the longest period), not withheld for ever: C09 only forbids the latter",
     "url-of-other-request": "the JWS url still equals the URL the request is sent to (C04 holds); no listed property speaks of which URL the challenge response goes to; the attempt fails and is reported as failed",
 }
 
@@ -193,6 +194,9 @@ mut("retry-body-changes", "C08", A + "http.rs", ["for _ in 0..crate::DEFAULT_HTT
     "the protected header of a retransmission names another URL than the first transmission")
 mut("limiter-stops-admitting", "C09", A + "endpoint.rs", "\t\t\tif self.request_allowed() {", "\t\t\tif self.request_allowed() && self.query_log.len() < 12 {",
     "once 12 requests sit in the log nothing is admitted until they are pruned, whatever the limits allow")
+mut("limiter-never-admits-again", "C09", A + "endpoint.rs", ["\t\t\tself.prune_log();\n\t\t\tif self.request_allowed() {", ],
+    ["\t\t\tif self.request_allowed() && self.query_log.len() < 12 {", ],
+    "the log is no longer pruned and nothing is admitted once it holds 12 entries: requests withheld for ever although the limits permit them")
 mut("hard-failure-ignored", "C10", A + "hooks.rs", "\t\tcall_single(logger, data, hook)\n\t\t\t.await\n\t\t\t.map_err(|e| e.prefix(&hook.name))?;", "\t\tlet _ = call_single(logger, data, hook).await;",
     "a failing hook without allow_failure does not stop the sequence")
 mut("clean-hook-other-proof", "C10", A + "acme_proto.rs", "\t\t\t\tdata.0.is_clean_hook = true;", "\t\t\t\tdata.0.is_clean_hook = true;\n\t\t\t\tdata.0.proof = String::new();",
